@@ -250,6 +250,25 @@ def r1b_iter_entries(ck, P):
                 return True
         return False
 
+    RAWF = {'bits_image.fetch_pixel_32', 'bits_image.fetch_pixel_float', 'bits_image.fetch_scanline_32', 'bits_image.fetch_scanline_float'}
+
+    def raw_fetch(u, e):
+        """the entry's functions call the image's own per-format fetch functions, which deliver the image's bits and know nothing of an
+        alpha map (the general fetchers apply it on top of them)"""
+        for k in ('initializer', 'get_scanline', 'write_back'):
+            n = fname(e[k])
+            if not n:
+                continue
+            f = u.functions.get(n) or P.fn(n, required=False)
+            if f is None:
+                continue
+            for c in f.calls():
+                if c.callee is None and 'callee' in c.d:
+                    y = f.v(c.d['callee'])
+                    if y is not None and y.op == 'load' and f.last_field(f.path(y.a[0])) in RAWF:
+                        return True
+        return False
+
     for u, g, t in iter_tables(P):
         for idx, e in enumerate(t):
             where = '%s[%d]' % (g['name'], idx)
@@ -265,6 +284,8 @@ def r1b_iter_entries(ck, P):
             if fname(e['write_back']) is None and not (itf & IT['ITER_SRC'] or fl & cover):
                 if not (e['format'] == any_ and fl == 0 and itf == 0):      # the general catch-all sets write_back in its initializer
                     problems.append('null write_back but neither ITER_SRC nor a COVER_CLIP bit keeps a destination iterator from matching')
+            if raw_fetch(u, e) and not fl & F['NO_ALPHA_MAP']:
+                problems.append('its functions call the image\'s per-format fetch functions directly, which do not look at the alpha map, but the entry does not require FAST_PATH_NO_ALPHA_MAP (a 1x1 repeating image presented as solid can carry one)')
             if raw(u, e):
                 if fl & (F['NO_ACCESSORS'] | F['NO_ALPHA_MAP']) != (F['NO_ACCESSORS'] | F['NO_ALPHA_MAP']):
                     problems.append('flags 0x%x lack NO_ACCESSORS|NO_ALPHA_MAP' % fl)
